@@ -40,6 +40,7 @@ EVALRS = 'starlark/src/eval.rs'
 CALLRS = 'starlark_syntax/src/syntax/call.rs'
 COMPR = 'starlark/src/eval/compiler/compr.rs'
 BCSTMT = 'starlark/src/eval/bc/compiler/stmt.rs'
+LISTM = 'starlark/src/values/types/list/methods.rs'
 RNGG = 'starlark/src/values/types/range/globals.rs'
 
 # (unit, file, old, new, expected obligation substring)
@@ -156,6 +157,10 @@ MUTANTS = [
     ('spans', PRD, '                    let value = self.parse_test()?;\n                    let r = self.last_end;\n                    Ok(Argument::Named(name, value).ast(l, r))', '                    let r = self.last_end;\n                    let value = self.parse_test()?;\n                    Ok(Argument::Named(name, value).ast(l, r))', 'argument'),
     ('spans', PRD, '                    let expr = self.continue_ternary(expr)?;\n                    let r = self.last_end;\n                    Ok(Argument::Positional(expr).ast(l, r))', '                    let r = self.last_end;\n                    let expr = self.continue_ternary(expr)?;\n                    Ok(Argument::Positional(expr).ast(l, r))', 'argument'),
     ('spans', PRD, '                    let ident = self.parse_identifier_string()?;\n                    let r = self.last_end;\n                    lhs = Expr::Dot(Box::new(lhs), ident).ast(l, r);', '                    let r = self.last_end;\n                    let ident = self.parse_identifier_string()?;\n                    lhs = Expr::Dot(Box::new(lhs), ident).ast(l, r);', 'continue_primary'),
+    ('listops', LISTM, 'if index < 0 || index >= this.len() as i32 {', 'if index < 0 || index > this.len() as i32 {', 'pop'),
+    ('listops', LISTM, 'let index = index.unwrap_or_else(|| (this.len() as i32) - 1);', 'let index = index.unwrap_or_else(|| (this.len() as i32));', 'C01.list.pop'),
+    ('listops', LISTM, 'if index < 0 || index >= this.len() as i32 {', 'if index >= this.len() as i32 {', 'pop'),
+    ('listops', LISTM, 'let index = convert_index(this.len() as i32, index);', 'let index = index as usize;', 'insert'),
     ('calls', INSTR, '        eval.with_call_stack(self.to_value(), Some(location), |eval| {\n            self.invoke(args, eval)\n        })', '        self.invoke(args, eval)', 'bc_invoke'),
     ('calls', 'starlark/src/values/layout/value.rs', '        eval.with_call_stack(self, location, |eval| {\n            self.get_ref_full().invoke(args, eval)\n        })', '        self.get_ref_full().invoke(args, eval)', 'invoke_with_loc'),
     ('strindex', STRT, 'let ind = CharIndex(i.unsigned_abs() as usize);', 'let ind = CharIndex((-i) as usize);', 'at'),
@@ -200,7 +205,7 @@ def run_one(idx, m, known):
         line = sp[0]['line_start'] if sp else None
         fn = r.fn_at(line) if line else None
         lab = r.label_at(line) if line else None
-        if any(k in msg for k in ('not satisfied', 'overflow', 'assertion failed', 'invariant', 'precondition not met', 'index in bounds')):
+        if any(k in msg for k in ('not satisfied', 'overflow', 'assertion failed', 'invariant', 'precondition not met', 'index in bounds')) or ('post-condition of closure' in msg and lab):
             fails.append('%s|%s' % (lab, fn['fn'] if fn else None))
         else:
             other.append(msg)
